@@ -4,6 +4,6 @@ set -u
 PATCH="$1"; shift
 cd /repo && git diff --quiet || { echo "/repo not clean"; exit 9; }
 git -C /repo apply "$PATCH" || { echo "patch does not apply"; exit 9; }
-cd /verif && ./check "$@"; rc=$?
+cd /verif && VERIF_EVIDENCE_DIR=/verif/work/evidence_seeded ./check "$@"; rc=$?
 git -C /repo checkout -- . 
 echo "exit=$rc"
